@@ -384,6 +384,13 @@ let register (reg : string -> (string list -> string) -> unit) =
       hexe (GlobModel.compile_src gb) ^ " " ^ Stdlib.String.concat "" (Stdlib.List.map (fun p -> if GlobModel.glob_matches gb p then "1" else "0") ps)
     | [g] -> hexe (GlobModel.compile_src (hexd g)) ^ " "
     | _ -> "BADARGS");
+  reg "path" (function [r; i; o] ->
+      let hd s = if s = "-" || s = "" then [] else hexd s in
+      let root = hd r and input = hd i and output = hd o in
+      let ob = function None -> "!" | Some b -> hexe b in
+      Stdlib.String.concat " " [hexe (PathModel.clean root); hexe (PathModel.dir root); hexe (PathModel.join [root; input; output]);
+                                ob (PathModel.rel root input); ob (PathModel.new_task_dst root input output)]
+    | _ -> "BADARGS");
   reg "filter" (function [ms; fs; paths] ->
       let lst s = if s = "" || s = "-" then [] else Stdlib.List.map hexd (split ',' s) in
       let filters = Stdlib.List.map (fun f -> match f with
